@@ -3,7 +3,10 @@
 //               exact-integer Lean Spec (`WELLFORMED`): structural part for every input, geometric part for inputs that are
 //               in general position (margin verified here with exact __int128 arithmetic) or rectilinear.
 //  model level: the real `IsValidClosedPath`, `IsVerySmallTriangle`, `BuildPath64`, `CleanCollinear` on synthetic OutPt rings
-//               and on the rings the real sweep produced, against Model/CleanUp.lean.
+//               and on the rings the real sweep produced, against Model/CleanUp.lean;
+//               the real `SegmentsIntersect`, `DoSplitOp`, `FixSelfIntersects`, `CleanCollinear` (now with the modelled
+//               FixSelfIntersects: no answer supplied) and the closed branch of `BuildPaths64` over a growing outrec_list_
+//               against Model/SplitOp.lean: produced rings compared point for point, split-off outrecs included.
 #include <algorithm>
 #include <cmath>
 #include <cstdint>
@@ -36,6 +39,14 @@
 using namespace vh;
 
 static bool thorough = false;
+// which GetSegmentIntersectPt the library was compiled with (the model has both)
+#if CLIPPER2_HI_PRECISION
+static const char* HI = "1";
+static const bool hi_build = true;
+#else
+static const char* HI = "0";
+static const bool hi_build = false;
+#endif
 
 // identify the input when a sanitizer aborts the run (./check looks for VERIF-CURRENT in stderr)
 #include <sanitizer/common_interface_defs.h>
@@ -46,6 +57,13 @@ static void on_death() { fprintf(stderr, "\nVERIF-CURRENT: %s\n", g_current.c_st
 extern "C" const char* __ubsan_default_options() { return "abort_on_error=1"; }
 #include <csignal>
 static void on_abort(int) { on_death(); _exit(98); }
+// FixSelfIntersects has no iteration bound: a run that does not come back is reported with its input
+static void on_alarm(int) {
+  printf("F\tfsi.hang\tno return within 60 s: %s\n", g_current.c_str());
+  fflush(stdout);
+  on_death();
+  _exit(96);
+}
 
 // ------------------------------------------------------------------------------------------- spec level
 static void run_config(const Input& in, int ct, int fr, bool pc, bool rev) {
@@ -144,6 +162,142 @@ static void model_records_for_ring(const Path64& ring, const std::string& src) {
   }
 }
 
+
+// ------------------------------------------------------------------------------------------- FixSelfIntersects / DoSplitOp
+static bool has_equal_neighbours(const Path64& r) {
+  for (size_t i = 0; i < r.size(); ++i) if (r[i] == r[(i + 1) % r.size()]) return true;
+  return false;
+}
+static std::string split_rings(Clipper64& c, size_t before) {
+  Paths64 sp;
+  for (size_t i = before; i < c.outrec_list_.size(); ++i) sp.push_back(ring_pts(c.outrec_list_[i]->pts));
+  return S(sp);
+}
+// FixSelfIntersects(outrec) on a fresh closed outrec whose ring is `ring` (seen from outrec->pts)
+static void fsi_record(const Path64& ring, const std::string& src) {
+  if (ring.empty()) return;
+  std::string res[2];
+  for (int poly = 0; poly < 2; ++poly) {
+    Clipper64 c;
+    c.using_polytree_ = poly;
+    OutRec* orc = c.NewOutRec();
+    orc->pts = make_ring(ring, orc);
+    size_t before = c.outrec_list_.size();
+    g_current = "FixSelfIntersects on the ring " + S(ring);
+    alarm(60);
+    c.FixSelfIntersects(orc);
+    alarm(0);
+    res[poly] = ring_or_disposed(orc->pts) + " " + split_rings(c, before);
+    if (poly == 0) {
+      Path64 a = ring_pts(orc->pts);
+      size_t nsplit = c.outrec_list_.size() - before;
+      stat(!orc->pts ? "fsi.disposed" : a == ring ? "fsi.unchanged" : a.size() > ring.size() ? "fsi.grew(DuplicateOp)" : a.size() < ring.size() ? "fsi.shrunk" : "fsi.changed_same_length");
+      if (nsplit) stat(nsplit == 1 ? "fsi.split_off.1" : "fsi.split_off.2+");
+      if (!has_equal_neighbours(ring)) {
+        bool bad = orc->pts && has_equal_neighbours(a);
+        for (size_t i = before; i < c.outrec_list_.size(); ++i) bad = bad || has_equal_neighbours(ring_pts(c.outrec_list_[i]->pts));
+        stat("fsi.input_without_equal_neighbours");
+        if (bad) emitF("fsi.creates_equal_neighbours", "FixSelfIntersects on " + S(ring) + " gives " + res[0]);
+      }
+    }
+    c.CleanUp();
+  }
+  if (res[0] != res[1]) emitF("fsi.polytree_mode_changes_rings", "FixSelfIntersects on " + S(ring) + ": " + res[0] + " vs " + res[1]);
+  emitM("fixsi." + src, std::string("FIXSI ") + HI + " " + S(ring), res[0]);
+}
+// DoSplitOp(outrec, splitOp) for the ring seen from splitOp (>= 4 nodes: prevOp, splitOp, splitOp->next, nextNextOp distinct)
+static void dosplit_record(const Path64& ring, const std::string& src) {
+  if (ring.size() < 4) return;
+  Clipper64 c;
+  c.using_polytree_ = false;
+  OutRec* orc = c.NewOutRec();
+  OutPt* splitOp = make_ring(ring, orc);
+  orc->pts = splitOp;
+  size_t before = c.outrec_list_.size();
+  Point64 pv = splitOp->prev->pt, nn = splitOp->next->next->pt, ip;
+  GetSegmentIntersectPt(pv, splitOp->pt, splitOp->next->pt, nn, ip);
+  stat(ip == pv ? "dosplit.ip_is_prevOp" : ip == nn ? "dosplit.ip_is_nextNextOp" : "dosplit.ip_inserted");
+  g_current = "DoSplitOp on the ring " + S(ring);
+  c.DoSplitOp(orc, splitOp);
+  emitM("dosplit." + src, std::string("DOSPLIT ") + HI + " " + S(ring), ring_or_disposed(orc->pts) + " " + split_rings(c, before));
+  stat(!orc->pts ? "dosplit.disposed" : c.outrec_list_.size() != before ? "dosplit.new_outrec" : "dosplit.triangle_deleted");
+  c.CleanUp();
+}
+static void segsint_record(Point64 a, Point64 b, Point64 c, Point64 d, const std::string& src) {
+  bool r = SegmentsIntersect(a, b, c, d);
+  emitM("segsint." + src, "SEGSINT " + S(a) + " " + S(b) + " " + S(c) + " " + S(d), r ? "1" : "0");
+  stat(r ? "segsint.true" : "segsint.false");
+}
+// CleanCollinear including FixSelfIntersects, no answer supplied to the model
+static void cleancolx_record(const Path64& ring, const std::string& src) {
+  if (ring.empty()) return;
+  for (int pc = 0; pc < 2; ++pc) {
+    Clipper64 c;
+    c.PreserveCollinear(pc);
+    c.using_polytree_ = false;
+    OutRec* orc = c.NewOutRec();
+    orc->pts = make_ring(ring, orc);
+    size_t before = c.outrec_list_.size();
+    g_current = "CleanCollinear on the ring " + S(ring);
+    alarm(60);
+    c.CleanCollinear(orc);
+    alarm(0);
+    emitM("cleancolx." + src, std::string("CLEANCOLX ") + HI + " " + std::to_string(pc) + " " + S(ring), ring_or_disposed(orc->pts) + " " + split_rings(c, before));
+    c.CleanUp();
+  }
+}
+static Point64 lat(Rng& g, int64_t L) { return Point64(g.range(-L, L), g.range(-L, L)); }
+// rings built to self-intersect: bow-ties, a long edge crossed by a thin spike (the DuplicateOp branch), crossings next to an
+// end point (ip == prevOp->pt / nextNextOp->pt after truncation), self-touching rings, random lattice rings
+static Path64 crossing_ring(Rng& g, std::string& kind, int64_t& L) {
+  L = g.pick(std::vector<int64_t>{2, 3, 5, 8, 20, 1000, (int64_t)1 << 20, (int64_t)1 << 30, (int64_t)1 << 45, (int64_t)1 << 58});
+  int k = (int)g.range(0, 6);
+  Path64 r;
+  auto pad = [&](int n) { for (int i = 0; i < n; ++i) r.push_back(lat(g, L)); };
+  switch (k) {
+    case 0: {  // bow-tie plus 0-3 further points
+      kind = "bowtie";
+      Point64 a = lat(g, L), b = lat(g, L);
+      r = {a, Point64(b.x, b.y), Point64(b.x, a.y), Point64(a.x, b.y)};
+      pad((int)g.range(0, 3));
+      break;
+    }
+    case 1: {  // long edge crossed twice by a thin spike
+      kind = "spike_across_edge";
+      int64_t w = g.range(4, 12) * (L < 4 ? 1 : L / 4 + 1), h = g.range(1, 3) * (L < 4 ? 1 : L / 4 + 1);
+      int64_t x = g.range(1, w - 2);
+      r = {Point64((int64_t)0, (int64_t)0), Point64(w, (int64_t)0), Point64(x - g.range(0, 1), h * 3), Point64(x, -g.range(1, 2)), Point64(x + g.range(1, 2), h * 3)};
+      pad((int)g.range(0, 4));
+      break;
+    }
+    case 2: {  // crossing very close to the first end point of an edge
+      kind = "crossing_near_endpoint";
+      int64_t m = g.range(5, 40);
+      r = {Point64(0, 0), Point64(m, (int64_t)1), Point64(0, -1), Point64(1, 1)};
+      if (g.coin()) for (auto& p : r) p = Point64(m - p.x, p.y);
+      if (g.coin()) for (auto& p : r) std::swap(p.x, p.y);
+      pad((int)g.range(1, 4));
+      break;
+    }
+    case 3: {  // self-touching: a vertex on another edge, or a repeated vertex
+      kind = "self_touching";
+      Point64 a = lat(g, L), b = lat(g, L);
+      Point64 mid((a.x + b.x) / 2, (a.y + b.y) / 2);
+      r = {a, b, lat(g, L), mid, lat(g, L)};
+      if (g.coin()) r.push_back(a);
+      pad((int)g.range(0, 2));
+      break;
+    }
+    default: {
+      kind = "random";
+      pad((int)g.range(4, 12));
+    }
+  }
+  // rotate so that the crossing is not always at the start
+  std::rotate(r.begin(), r.begin() + g.range(0, (int64_t)r.size() - 1), r.end());
+  return r;
+}
+
 static Path64 synthetic_ring(Rng& g) {
   int n = (int)g.range(1, 10);
   int L = (int)g.pick(std::vector<int>{1, 2, 3, 6, 1000});
@@ -171,19 +325,36 @@ static void engine_rings(const Input& in, int ct, int fr, bool pc, bool rev) {
   c.AddSubject(in.subj);
   c.AddClip(in.clip);
   if (c.ExecuteInternal((ClipType)ct, (FillRule)fr, false)) {
+    // the rings the sweep leaves in outrec_list_ (inputs are closed paths only: no open outrecs)
+    Paths64 rings0, built;
+    bool any_open = false;
+    for (OutRec* orc : c.outrec_list_) { rings0.push_back(ring_pts(orc->pts)); any_open = any_open || orc->is_open; }
+    size_t n0 = c.outrec_list_.size();
+    // the body of BuildPaths64's loop; outrec_list_.size() is re-read because CleanCollinear may append outrecs
     for (size_t i = 0; i < c.outrec_list_.size(); ++i) {
       OutRec* orc = c.outrec_list_[i];
       if (!orc->pts || orc->is_open) continue;
       Path64 before = ring_pts(orc->pts);
+      size_t nb = c.outrec_list_.size();
+      g_current = "CleanCollinear on the sweep-produced ring " + S(before);
+      alarm(60);
       c.CleanCollinear(orc);
+      alarm(0);
       std::string after = ring_or_disposed(orc->pts);
       emitM("cleancol.engine", "CLEANCOL " + std::string(pc ? "1" : "0") + " " + S(before) + " " + after, after);
+      emitM("cleancolx.engine", std::string("CLEANCOLX ") + HI + " " + std::string(pc ? "1" : "0") + " " + S(before), after + " " + split_rings(c, nb));
+      if (c.outrec_list_.size() != nb) stat("engine.fix_split_off_outrec");
       if (orc->pts) {
         Path64 a = ring_pts(orc->pts), path;
         bool r = BuildPath64(orc->pts, rev, false, path);
         emitM("buildpath.engine", "BUILDPATH " + std::string(rev ? "1" : "0") + " 0 " + S(a), r ? S(path) : std::string("none"));
+        if (r) built.push_back(path);
       }
       stat(before.size() == (orc->pts ? ring_pts(orc->pts).size() : 0) ? "engine.ring.unchanged_length" : "engine.ring.shortened");
+    }
+    if (!any_open) {
+      emitM("buildpaths.engine", std::string("BUILDPATHS ") + HI + " " + std::string(pc ? "1" : "0") + " " + std::string(rev ? "1" : "0") + " " + S(rings0), S(built));
+      stat(c.outrec_list_.size() != n0 ? "buildpaths.outrec_list_grew" : "buildpaths.outrec_list_static");
     }
   }
   c.CleanUp();
@@ -194,8 +365,11 @@ int main(int argc, char** argv) {
   thorough = thorough_from_args(argc, argv);
   __sanitizer_set_death_callback(on_death);
   signal(SIGABRT, on_abort);
+  signal(SIGALRM, on_alarm);
   int n_gp = thorough ? 1500 : 150, n_rect = thorough ? 1500 : 150, n_deg = thorough ? 3000 : 300, n_ring = thorough ? 20000 : 3000;
   Input in;
+  // the HI_PRECISION build repeats only the sections that reach GetSegmentIntersectPt through DoSplitOp at model level
+  if (!hi_build) {
   // corpus: hand-picked boundary cases first
   {
     Input k; k.gen = "corpus"; k.cls = 2;
@@ -270,6 +444,55 @@ int main(int argc, char** argv) {
       engine_rings(in, (int)g.range(1, 4), (int)g.range(0, 3), g.coin(), g.coin());
   }
   for (int i = 0; i < n_ring; ++i) model_records_for_ring(synthetic_ring(g), "synthetic");
+  }  // !hi_build
+  // dense self-intersecting random polygons on small lattices: rounded intersection points give the sweep's outrecs the
+  // micro self-intersections FixSelfIntersects exists for (model level only: CLEANCOL/CLEANCOLX/BUILDPATH/BUILDPATHS records)
+  for (int i = 0; i < (thorough ? 6000 : 600); ++i) {
+    Input d; d.gen = "dense"; d.cls = 0;
+    int64_t L = g.pick(std::vector<int64_t>{4, 6, 10, 20, 50});
+    int np = (int)g.range(1, 2);
+    for (int k = 0; k < np; ++k) d.subj.push_back(rand_poly(g, (int)g.range(5, 24), L));
+    if (g.coin()) d.clip.push_back(rand_poly(g, (int)g.range(3, 16), L));
+    stat("input.dense");
+    engine_rings(d, (int)g.range(1, 4), (int)g.range(0, 3), g.coin(), g.coin());
+  }
+  // FixSelfIntersects / DoSplitOp / SegmentsIntersect
+  {
+    // corpus: the witnesses used in Props/C03Split.lean
+    Path64 w1 = {{0, 0}, {10, 10}, {10, 0}, {0, 10}, {-5, 5}};                 // one crossing at (5,5): triangle split off
+    Path64 w2 = {{0, 0}, {10, 1}, {0, -1}, {1, 1}, {-9, 9}};                    // crossing truncated to prevOp->pt: guard fires
+    Path64 w3 = {{0, -5}, {0, 0}, {10, 0}, {4, 5}, {5, -1}, {6, 5}};            // DuplicateOp branch at the first node
+    Path64 w4 = {{0, 0}, {10, 10}, {10, 0}, {0, 10}};                           // bow-tie of area 0: disposed
+    for (auto& w : {w1, w2, w3, w4}) {
+      for (size_t k = 0; k < w.size(); ++k) {
+        Path64 r = w; std::rotate(r.begin(), r.begin() + k, r.end());
+        fsi_record(r, "corpus"); dosplit_record(r, "corpus"); cleancolx_record(r, "corpus");
+      }
+    }
+    segsint_record({0, 0}, {10, 10}, {10, 0}, {0, 10}, "corpus");
+    segsint_record({0, 0}, {10, 10}, {5, 5}, {0, 10}, "corpus");
+  }
+  int n_fsi = thorough ? 30000 : 4000;
+  for (int i = 0; i < n_fsi; ++i) {
+    std::string kind;
+    int64_t L = 0;
+    Path64 r = crossing_ring(g, kind, L);
+    stat("fsi.gen." + kind);
+    fsi_record(r, kind);
+    if (i % 2 == 0) cleancolx_record(r, kind);
+    if (i % 3 == 0) {
+      // DoSplitOp where FixSelfIntersects would call it, and on arbitrary rings (parallel segments leave ip = (0,0))
+      for (size_t k = 0; k < r.size(); ++k) {
+        Path64 q = r; std::rotate(q.begin(), q.begin() + k, q.end());
+        if (q.size() >= 4 && SegmentsIntersect(q.back(), q[0], q[1], q[2])) { dosplit_record(q, kind + ".crossing"); break; }
+      }
+      // (HI_PRECISION: nearbyint(hit) of nearly parallel far-apart segments need not fit int64_t - undefined in the C++)
+      if (!hi_build || L <= 1000) dosplit_record(r, kind + ".any");
+    }
+    if (r.size() >= 4) segsint_record(r[0], r[1], r[2], r[3], kind);
+  }
+  // synthetic rings of the CleanCollinear section through the whole of CleanCollinear as well
+  for (int i = 0; i < n_ring / 4; ++i) cleancolx_record(synthetic_ring(g), "synthetic");
   flush_stats();
   return 0;
 }
